@@ -5,3 +5,8 @@ package nsqd
 import "os"
 
 func osWriteFile(name string, data []byte) { os.WriteFile(name, data, 0600) }
+
+func verifFileExists(name string) bool {
+	fi, err := os.Stat(name)
+	return err == nil && fi.Size() > 0
+}
